@@ -45,6 +45,7 @@ class Report:
         self.info = {}
         self.floors = {}
         self.trusted = []
+        self.analysis_errors = []
 
     def ok(self, rule, instance, loc=None):
         self.obligations.append({"rule": rule, "instance": instance, "ok": True, "loc": loc})
@@ -73,9 +74,23 @@ class Report:
         the rule were found: a rule matching nothing passes vacuously."""
         self.floors[rule] = n
         c = self.count(rule)
-        if c < n:
+        if c < n and not any(f.rule == rule for f in self.findings):
             raise AnalysisError(f"rule {rule}: {c} instances found, floor is {n} "
                                 f"(anchor moved or idiom not recognised)")
+
+    def run_rules(self, e, rules):
+        """Run every rule; an AnalysisError in one rule does not hide the
+        violations found by the others.  Errors are re-raised at the end only
+        if no violation at all was found (never a pass)."""
+        errors = []
+        for r in rules:
+            try:
+                r(e, self)
+            except AnalysisError as ex:
+                errors.append(f"{getattr(r, '__name__', r)}: {ex}")
+        self.analysis_errors = getattr(self, "analysis_errors", []) + errors
+        for er in errors:
+            self.note("analysis incomplete: " + er)
 
     def note(self, s):
         self.notes.append(s)
